@@ -74,8 +74,17 @@ LineDecode == /\ cur # "-" /\ pos <= NLines /\ KindOf(cfgid, cur, pos) = 0
               /\ lastLine' = [lastLine EXCEPT ![cw] = <<cur, pos>>]
               /\ pos' = pos + 1 /\ UNCHANGED <<cfgid, cur, cw, calls>>
 
+\* A failing line (kind 2) is either one without logits (MissingLogits raised by the guard, nothing touched) or one whose
+\* logits have no frame ("broken": the exception is raised inside the decoder call).  In the second case, with CARRY_H_OVER
+\* and no confidence threshold, decode_line has already re-primed last_h from last_line when the decoder raises; the
+\* exception is swallowed either way and the context the next line starts from is the same.
+Broken(p, l) == (PageNo(p) + l) % 2 = 1
+ThresholdSet(c) == \E p \in Pages, l \in 1..NLines : KindOf(c, p, l) = 1
+FailH(c, p, l, h, ll) == IF Broken(p, l) /\ CarryOf(c) /\ ~ThresholdSet(c) /\ ~h.has /\ ll # NoLine
+                         THEN [has |-> TRUE, c |-> <<ll>>] ELSE h
 LineFail == /\ cur # "-" /\ pos <= NLines /\ KindOf(cfgid, cur, pos) = 2
-            /\ pos' = pos + 1 /\ UNCHANGED <<cfgid, lastH, lastLine, cur, cw, calls, log>>
+            /\ lastH' = [lastH EXCEPT ![cw] = FailH(cfgid, cur, pos, lastH[cw], lastLine[cw])]
+            /\ pos' = pos + 1 /\ UNCHANGED <<cfgid, lastLine, cur, cw, calls, log>>
 
 PageEnd == /\ cur # "-" /\ pos > NLines
            /\ cur' = "-" /\ pos' = 0 /\ UNCHANGED <<cfgid, lastH, lastLine, cw, calls, log>>
@@ -90,7 +99,7 @@ Alone(c, p, n) ==
    ELSE LET s == Alone(c, p, n - 1)
             k == KindOf(c, p, n)
         IN IF k = 1 THEN [h |-> NoH, ll |-> <<p, n>>]
-           ELSE IF k = 2 THEN s
+           ELSE IF k = 2 THEN [h |-> FailH(c, p, n, s.h, s.ll), ll |-> s.ll]
            ELSE [h |-> IF CarryOf(c) THEN [has |-> TRUE, c |-> Append(StartCtx(TRUE, s.h, s.ll), <<p, n>>)] ELSE s.h,
                  ll |-> <<p, n>>]
 AloneCtx(c, p, l) == LET s == Alone(c, p, l - 1) IN StartCtx(CarryOf(c), s.h, s.ll)
